@@ -243,6 +243,41 @@ def set_rule(ctx, syn):
         r.hit(opname, sample={"operation": opname, "cases": len(cases), "example": {"self": [1, 3], "other": [0, 1, 4]}})
     ctx.floor(r, nruns, 2200, "union/intersection evaluations")
 
+    # ---------------- FLAG: the flag that licenses binary search is computed truthfully
+    rf = ctx.rule("C08.FLAG", "Handles::from_iter reports sorted=true only for a sequence that is in handle order (contains() and the set operations binary-search under that flag), and keeps the items as given")
+    fi = hf.get("from_iter")
+    if fi is None:
+        ctx.anchor_missing(rf, "fn Handles::from_iter")
+        return
+    ctx.functions_analysed.add(fi.qual)
+    h2 = dict(hooks)
+    h2["call:Vec::new"] = lambda ev, recv, args, node, env: []
+    h2["call:Cow::Owned"] = lambda ev, recv, args, node, env: args[0]
+    h2["first"] = lambda ev, recv, args, node, env: (some(recv[0]) if recv else None) if isinstance(recv, list) else NotImplemented
+    h2["last"] = lambda ev, recv, args, node, env: (some(recv[-1]) if recv else None) if isinstance(recv, list) else NotImplemented
+    nf = 0
+    bad = False
+    try:
+        for n_ in range(0, 5):
+            for seq in itertools.product(range(4), repeat=n_):
+                seq = list(seq)
+                res = Evaluator(hooks=h2).run_body(fi.body, {"iter": list(seq), "store": "store"})
+                if not isinstance(res, StructVal):
+                    raise Unknown("from_iter returned %r" % (res,))
+                nf += 1
+                flag, arr = res["sorted"], res["array"]
+                if arr != seq and not bad:
+                    bad = True
+                    ctx.report(rf, "items", "Handles::from_iter(%s) holds %s" % (seq, arr), fi.file, fi.line)
+                if flag is True and seq != sorted(seq) and not bad:
+                    bad = True
+                    ctx.report(rf, "sorted-flag", "Handles::from_iter(%s) reports sorted=true although the sequence is not in handle order: contains() binary-searches and misses members, filters built from the collection silently drop matches" % seq, fi.file, fi.line, {"sequence": seq})
+        rf.hit("from_iter", sample={"sequences": nf, "law": "sorted flag => sequence nondecreasing; array == input"})
+    except (Unknown, Panic) as ex:
+        ctx.report(rf, "unevaluated", "Handles::from_iter could not be evaluated (%s): the truth of its sorted flag is not established" % ex, fi.file, fi.line)
+    rf.obligations = rf.discharged = nf
+    ctx.floor(rf, nf, 341, "sequences evaluated")
+
 
 # ====================================================================== PAIR
 import qpair
@@ -352,6 +387,9 @@ def pair_rule(ctx, syn):
                         key, qpair.fmt(cp), parm.get("l"), qpair.fmt(cs), sarm.get("l")), Q, sarm.get("l"), {"source": qpair.fmt(cp), "filter": qpair.fmt(cs)})
     ctx.floor(r, decided, 60, "constraint pairs decided")
     r.notes.append("pairs decided: %d; not decided: %d" % (decided, len(undecided)))
+    # every pair is decidable on the reference tree: one that is not any more is reported (failing closed), it is not dropped
+    for k_, v_ in sorted(undecided.items()):
+        ctx.report(r, "undecided:" + k_, "the pair %s cannot be decided any more (%s): one of its two implementations has taken a form outside the navigation algebra, so their agreement is not established" % (k_, v_), Q, None, {"kind": "analysis-incomplete"})
     for k_, v_ in sorted(undecided.items())[:60]:
         r.notes.append("not decided: %s: %s" % (k_, v_))
     ctx.extra["pair_table"] = [{"pair": a, "source": b, "filter": c} for a, b, c, _, _ in table]
